@@ -133,6 +133,19 @@ class AccConn:
         """FIN: orderly close. reset: close with unread data pending so the peer sees ECONNRESET."""
         if self.closed:
             return
+        if not reset:
+            # an orderly close must not leave unread data behind (the kernel would turn it into a reset)
+            for _ in range(64):
+                try:
+                    import select as _select
+                    if not _select.select([self.sock], [], [], 0)[0]:
+                        break
+                except (OSError, ValueError):
+                    break
+                before = len(self.writes_seen)
+                self._readable()
+                if self.eof or len(self.writes_seen) == before:
+                    break
         self.closed = True
         try:
             self.net.loop.remove_reader(self.sock.fileno())
